@@ -20,17 +20,18 @@ type memConn struct {
 	rdErr  error
 	closed bool
 
-	written   [][]byte
-	writeHook func(c *memConn, b []byte) (int, error)
-	blocked   int // goroutines currently blocked in Read
-	reads     int
-	closes    int
-	local     net.Addr
-	remote    net.Addr
-	timeouts  int // pending timeout errors to return from Read before data
-	coalesce  bool // the last data of the stream is returned together with the EOF / read error
-	tag       string
-	serveID   string
+	written     [][]byte
+	writeHook   func(c *memConn, b []byte) (int, error)
+	blocked     int // goroutines currently blocked in Read
+	reads       int
+	closes      int
+	local       net.Addr
+	remote      net.Addr
+	timeouts    int  // pending timeout errors to return from Read before data
+	coalesce    bool // the last data of the stream is returned together with the EOF / read error
+	tag         string
+	serveID     string
+	closedReads int // Reads that found the transport closed: the reader has got to the end of what was buffered
 }
 
 type memAddr struct{ net, s string }
@@ -59,6 +60,7 @@ func (c *memConn) Read(p []byte) (int, error) {
 	c.reads++
 	for {
 		if c.closed {
+			c.closedReads++
 			return 0, errMemClosed
 		}
 		if c.timeouts > 0 {
@@ -142,10 +144,11 @@ func (c *memConn) deliver(b []byte) {
 	c.cond.Broadcast()
 	c.mu.Unlock()
 }
-func (c *memConn) peerEOF()          { c.mu.Lock(); c.rdEOF = true; c.cond.Broadcast(); c.mu.Unlock() }
-func (c *memConn) readError(e error) { c.mu.Lock(); c.rdErr = e; c.cond.Broadcast(); c.mu.Unlock() }
-func (c *memConn) timeout()          { c.mu.Lock(); c.timeouts++; c.cond.Broadcast(); c.mu.Unlock() }
-func (c *memConn) isClosed() bool    { c.mu.Lock(); defer c.mu.Unlock(); return c.closed }
+func (c *memConn) peerEOF()             { c.mu.Lock(); c.rdEOF = true; c.cond.Broadcast(); c.mu.Unlock() }
+func (c *memConn) readError(e error)    { c.mu.Lock(); c.rdErr = e; c.cond.Broadcast(); c.mu.Unlock() }
+func (c *memConn) timeout()             { c.mu.Lock(); c.timeouts++; c.cond.Broadcast(); c.mu.Unlock() }
+func (c *memConn) isClosed() bool       { c.mu.Lock(); defer c.mu.Unlock(); return c.closed }
+func (c *memConn) readerSawClose() bool { c.mu.Lock(); defer c.mu.Unlock(); return c.closedReads > 0 }
 func (c *memConn) allWritten() []byte {
 	c.mu.Lock()
 	defer c.mu.Unlock()
